@@ -346,6 +346,13 @@ def step (m : MState) (e : TEv) : MState :=
               (checkW w ok "C10" "takeover-without-rights"
                 s!"instance {x.cfg.id} (priority {x.cfg.prio}, takeover {x.cfg.takeover}) replaces {repr (w.live p.key)}: {why}").hit "C10:takeover"
             else w
+          -- C10: the priority stored in a record is its owner's (what the takeover rule of the others compares against)
+          let w := match p.kind, p.val with
+            | .delete, _ => w
+            | _, .own id _ pr =>
+              checkW w (id ≠ x.cfg.id ∨ pr = x.cfg.prio) "C10" "record-advertises-wrong-priority"
+                s!"instance {x.cfg.id} (priority {x.cfg.prio}) writes a record that advertises priority {pr}: an instance of priority between the two can now depose it"
+            | _, _ => w
           -- C13: a live record the instance did not write is replaced only by legitimate preemption
           let w := if p.kind = .update ∧ ¬ isRefresh w x p then
               checkW w ok "C13" "foreign-record-replaced" s!"instance {x.cfg.id} replaces the live record {repr (w.live p.key)} it did not write: {why}"
@@ -498,7 +505,7 @@ def step (m : MState) (e : TEv) : MState :=
         let w := if x.flag ∧ x.lastHealthAt == some (e.t, false) then w.hit "C12:health-demotion" else w
         let w := if x.flag ∧ x.stopCalledSince.isNone then w.hit "C08:demotion-not-by-stop" else w
         -- C11: with nothing but connection notifications going on, the only demotion is the grace expiry, at exactly its instant
-        let w := checkW w (!(h.connOnly && x.flag && x.stopCalledSince.isNone) || x.graceDue == some e.t) "C11" "demoted-outside-grace-expiry"
+        let w := checkW w (!(h.connOnly && x.flag && x.stopCalledSince.isNone) || x.graceDue == some e.t || x.graceTie == some e.t) "C11" "demoted-outside-grace-expiry"
                    s!"instance {i} is demoted at {e.t}; latest disconnect {repr x.discAt}, grace deadline {repr x.graceDue}"
         -- C12: a demotion on a tick whose health check failed, below the threshold, with no other cause due
         let w := checkW w (!(x.flag && x.stopCalledSince.isNone && x.lastHealthAt == some (e.t, false) && decide (x.healthRun < healthThreshold x.cfg)
@@ -525,8 +532,10 @@ def step (m : MState) (e : TEv) : MState :=
       let w := checkW w0 (¬ x.termOpen) "C08" "promote-twice" s!"instance {i}: promotion callback while a term is already open"
       let w := checkW w (x.claimedToks.head? = some tok) "C08" "promote-wrong-token" s!"instance {i}: callback token {tok}, term token {x.claimedToks.head?}"
       let w := checkW w (x.stoppedSince.isNone) "C09" "promote-after-stop" s!"instance {i}: promotion callback after its stop returned"
-      let w := checkW w (!(dn && x.flag)) "C19" "context-cancelled-at-start" s!"instance {i}: promotion context {cid} already cancelled when the callback starts"
-      let c : CtxW := { cid := cid, tok := tok, cancelled := dn, termEnded := !x.flag || x.flagTok != tok }
+      -- (a stop call in progress, or the application's own cancellation of the run's context, is ending the term: the
+      --  flag is lowered before the callback is awaited, the gauge event comes at the end of the critical section)
+      let w := checkW w (!(dn && x.flag && x.stopCalledSince.isNone)) "C19" "context-cancelled-at-start" s!"instance {i}: promotion context {cid} already cancelled when the callback starts"
+      let c : CtxW := { cid := cid, tok := tok, cancelled := dn, termEnded := !x.flag || x.flagTok != tok || x.stopCalledSince.isSome }
       let x1 : InstW := { x with termOpen := true, promotes := x.promotes + 1, ctxs := c :: x.ctxs }
       { m with w := w.setInst x1 }
   | .promoteRet i cid =>
@@ -665,9 +674,11 @@ def step (m : MState) (e : TEv) : MState :=
       match k with
       | .disconnect =>
         let w1 := if x.flag then w0.hit "C11:disconnect-while-leading" else w0
-        { m with w := w1.setInst { x with discAt := some e.t, graceDue := if x.flag then some (e.t + graceOf x.cfg) else x.graceDue, verifyOpen := none } }
+        { m with w := w1.setInst { x with discAt := some e.t, graceDue := if x.flag then some (e.t + graceOf x.cfg) else x.graceDue, verifyOpen := none,
+                                          graceTie := if x.graceDue == some e.t then some e.t else none } }
       | .reconnect =>
-        let x1 := { x with graceDue := none, verifyOpen := if x.flag then some (e.t, !(recordIsMine w0 x)) else none }
+        let x1 := { x with graceDue := none, graceTie := if x.graceDue == some e.t then some e.t else none,
+                           verifyOpen := if x.flag then some (e.t, !(recordIsMine w0 x)) else none }
         let w1 := if x.flag then w0.hit "C11:reconnect-while-leading" else w0
         { m with w := w1.setInst x1 }
       | .closed => { m with w := w0 }
